@@ -145,6 +145,11 @@ def _cases(draw, tier):
                 d, q = 'bare', '"'
             if not chars and d == '.byte':
                 continue
+            if d != '.byte' and draw(st.integers(0, 4)) == 0:
+                # the text itself ends in the terminator character: the terminator is appended all the same
+                t = general.get('cstr_terminator', 0)
+                chars = list(chars) + [t if 32 <= t < 127 and chr(t) not in '"\'\\;' else ['esc', t, '\\x%02x' % t]]
+                feats.add('text-ends-in-the-terminator')
             if any(not isinstance(c, int) for c in chars):
                 feats.add('escape')
             if any(isinstance(c, int) and chr(c) in '"\'' for c in chars):
